@@ -189,6 +189,15 @@ func decodeStack(stack string, c Case, rd io.Reader, bufsize int) (o fragOutcome
 			_, st, err = saltpack.NewSigncryptOpenStream(rd, makeRing(c.A["keys"], "all", c.A["signers"]), nil)
 		case "sc-open-armored":
 			_, st, _, err = saltpack.NewDearmor62SigncryptOpenStream(rd, makeRing(c.A["keys"], "all", c.A["signers"]), nil)
+		case "classify-decrypt":
+			// the convenience entry point that classifies (armored or binary, mode) and then decrypts
+			var mt saltpack.MessageType
+			var isArm bool
+			var brand string
+			st, mt, _, _, isArm, brand, _, err = saltpack.ClassifyEncryptedStreamAndMakeDecoder(rd, makeRing(c.A["keys"], "all", c.A["signers"]), nil)
+			if err == nil {
+				o.extra = fmt.Sprintf("%d %v %s", mt, isArm, brand)
+			}
 		case "basex":
 			st = newBasexDecoder(c.A["enc"], rd)
 		}
